@@ -1,60 +1,401 @@
-"""C09 — fragment reassembly returns the original message once, in any arrival order."""
-import itertools
-from ..e1 import Harness
+"""C09 — fragment reassembly returns the original message once, in any arrival order (E2: MIR -> SMT, stateful interpreter).
+
+The MIR of `FragmentAssembler::{start_fragment, add_fragment, pending_count}` and everything they call in fragmentation.rs
+(`FragmentedMessage::{new, add_fragment, set_total_fragments, is_complete, reassemble}`, `FragmentCount::*`, the closures) is
+executed by mir_smt/heapex.py on *scripts* of API calls whose fragment ids, sequence ids and payload identities are symbolic.
+After every call the result is compared by the solver with a reference model of the protocol (the message of N fragments is
+complete when the header (id N) and ids N-1..1 have all arrived; it is delivered exactly then, as cache ++ payload(N) ++ .. ++
+payload(1); everything else returns nothing)."""
+import os
+import re
+import subprocess
+import time
+
+from ..e1 import WORK, REPO, TARGET, log
+from mir_smt import mir, symex, heapex
 
 PROP_ID = "C09"
 FEATURE = "c09"
-ENGINE = "E1 kani-cbmc"
-QUICK_MAX_S = 125
-FUNCTIONS = ["edp_client::fragmentation::FragmentAssembler::{new, start_fragment, add_fragment, pending_count}",
-             "FragmentedMessage::{new, add_fragment, set_total_fragments, is_complete, reassemble}, FragmentCount::new"]
-ASSUMPTIONS = ["tracing callsites stubbed to disabled (log emission only)", "RandomState::new stubbed with fixed keys",
-               "Instant::now stubbed to a fixed instant: expiry by wall clock (cleanup_expired) is outside the claim",
-               "std::fmt::format stubbed", "arrival orders are enumerated by the generator (all permutations), payload bytes are symbolic, sequence ids concrete except for single-fragment sequences"]
-OUTSIDE = ["more than 3 fragments, payloads other than 1 byte per fragment, more than 2 interleaved sequences, expiry, atom-cache prefix data"]
-STUBS = ("#[cfg_attr(kani, kani::stub(std::fmt::format, crate::stubs::fmt_format))]\n"
-         "#[cfg_attr(kani, kani::stub(std::collections::hash_map::RandomState::new, crate::stubs::random_state_new))]\n"
-         "#[cfg_attr(kani, kani::stub(tracing::__macro_support::__is_enabled, crate::stubs::tracing_is_enabled))]\n"
-         "#[cfg_attr(kani, kani::stub(tracing_core::callsite::DefaultCallsite::interest, crate::stubs::tracing_interest))]\n"
-         "#[cfg_attr(kani, kani::stub(tracing_core::event::Event::dispatch, crate::stubs::tracing_dispatch))]\n"
-         "#[cfg_attr(kani, kani::stub(std::time::Instant::now, crate::stubs::instant_now))]\n")
+ENGINE = "E2 mir-smt (stateful)"
+FUNCTIONS = ["edp_client::fragmentation::FragmentAssembler::{start_fragment, add_fragment, pending_count} (MIR of the working tree)",
+             "FragmentedMessage::{new, add_fragment, set_total_fragments, is_complete, reassemble} + closures, FragmentCount::{new, get, exceeds_vec_limit}"]
+ASSUMPTIONS = [
+    "std containers are modelled, not executed: Vec<T> = list with a concrete length per path, HashMap = insertion-ordered association list "
+    "(drain order = insertion order), Vec<u8> payload = sequence of opaque chunks, Option/Result = enums with concrete discriminant per path",
+    "tracing is disabled (every `trace!` guard is false); Instant::now is opaque: expiry (cleanup_expired) is outside the claim",
+    "a duplicate of a fragment carries the same bytes as the original; all headers of one message carry the same count, cache data and payload",
+    "payload identities are 64-bit tokens (two chunks are the same bytes iff their tokens are equal); each payload is shorter than 2^40 bytes",
+    "trusted: nightly rustc's MIR, the interpreter and container models in /verif/mir_smt/heapex.py, z3 4.8.12; every counterexample is replayed "
+    "on the real FragmentAssembler (native binary) before it is reported",
+]
+OUTSIDE = ["messages of more than 3 fragments (quick: 2); more than N+2 calls per script; more than 2 interleaved sequences",
+           "fragment counts above 100000 (the pending-map path of FragmentedMessage::new)", "expiry / cleanup_expired", "headers whose count differs between duplicates"]
+KMAX = {"quick": 1, "thorough": 2}     # extra calls beyond N
 
 
 def bounds(tier):
-    return {"fragments": "N in {1,2,3}: every arrival permutation; duplicates of every arrival for N=2", "payload": "1 symbolic byte per fragment",
-            "sequence ids": "symbolic u64 for single-fragment sequences; concrete ids otherwise (a symbolic HashMap key makes the probe sequence symbolic)", "interleaving": "2 sequences x 2 fragments, continuation before header"}
-
-
-def fn(name, body):
-    return STUBS + "#[cfg_attr(kani, kani::proof)]\npub fn %s() {\n%s\n    vk::reached();\n}\n" % (name, body)
-
-
-def H(n, d):
-    # hashbrown's probe loops end in the first group for these tiny tables; the unwinding assertions prove it
-    return Harness(n, d, unwind=5, cap_s=900, mem_gb=8, typed_heap="big",
-                   unwindset=[(r"hashbrown::raw::RawTableInner::(find_inner|find_or_find_insert_index_inner|find_insert_index|fix_insert_index)", 2),
-                              (r"simd_bitmask_impl", 17), (r"^c09::", 8), (r"sip::Hasher", 3), (r"^memcmp$|^memcpy$", 10)])
+    return {"fragments_per_message": "N in 1..%d" % (2 if tier == "quick" else 3),
+            "calls": "every script over {header, continuation} of length N+%d on one sequence; 4 two-sequence interleavings" % KMAX[tier],
+            "symbolic": "continuation fragment ids (any u64 incl. 0, duplicates, out of range), both sequence ids (any distinct u64), payload/cache tokens",
+            "decided_per_path": "Some/None against the reference model's completion, delivered chunk order against cache++p(N)..p(1), pending_count <= live sequences, no panic"}
 
 
 def generate(tier, seed):
-    src = ["use crate::c09::*;\nuse crate::vk;\n"]
-    hs = []
-    for N in (1, 2, 3):
-        for perm in itertools.permutations(range(N)):
-            n = "c09_order__n%d_%s" % (N, "".join(map(str, perm)))
-            src.append(fn(n, "    one_sequence::<%d>([%s], 99, %s);" % (N, ", ".join(map(str, perm)), "vk::u64()" if N == 1 else "%du64" % (1000 + N))))
-            hs.append(H(n, "%d fragments arriving in protocol positions %s: nothing until the last missing one, then the original bytes" % (N, perm)))
-    for perm in itertools.permutations(range(2)):
-        for dup in range(2):
-            n = "c09_dup__n2_%s_dup%d" % ("".join(map(str, perm)), dup)
-            src.append(fn(n, "    one_sequence::<2>([%s], %d, 42u64);" % (", ".join(map(str, perm)), dup)))
-            hs.append(H(n, "2 fragments in order %s with arrival %d delivered twice" % (perm, dup)))
-    for k in (0, 1):
-        n = "c09_two_sequences_%d" % k
-        src.append(fn(n, "    two_sequences(%d);" % k))
-        hs.append(H(n, "two interleaved sequences with distinct symbolic ids stay isolated (variant %d)" % k))
-    src.append(fn("c09_out_of_range_ids", "    out_of_range_ids();"))
-    hs.append(H("c09_out_of_range_ids", "fragment id 0 / above the count changes nothing"))
-    src.append(fn("c09_early_out_of_range", "    early_out_of_range();"))
-    hs.append(H("c09_early_out_of_range", "a continuation with id above the count buffered before the header does not count towards completion"))
-    return "\n".join(src), hs
+    return "", []
+
+
+def _rec(name, status, wall, notes=None, failures=None, sample=None, solver_s=0.0, queries=0, paths=0):
+    return {"harness": name, "desc": sample or name, "status": status, "wall_s": wall, "notes": notes or [], "failures": failures or [],
+            "engine": "e2", "nontrivial": 1, "solver_s": solver_s, "vccs": queries, "vccs_remaining": queries, "sat_calls": queries, "steps": paths}
+
+
+# ------------------------------------------------------------------------------------------------ loading the code
+def load():
+    mdir = os.path.join(WORK, "mir")
+    os.makedirs(mdir, exist_ok=True)
+    path = os.path.join(mdir, "edp_client.mir")
+    mir.dump_mir(os.path.join(REPO, "crates", "edp_client"), path, os.path.join(TARGET, "mir"))
+    text = open(path).read()
+    fns = {f.name: f for f in mir.parse_functions(text, r"^fn fragmentation::")}
+    consts = symex.parse_consts(text)
+    # impl block start line -> owner type, from the source of the working tree
+    src = open(os.path.join(REPO, "crates", "edp_client", "src", "fragmentation.rs")).read().splitlines()
+    owner = {}
+    for i, ln in enumerate(src, 1):
+        m = re.match(r"^impl(?:<.*>)? (?:\w+ for )?(\w+)", ln)
+        if m:
+            owner[i] = m.group(1)
+    table = {}
+    for name, f in fns.items():
+        m = re.match(r"^fragmentation::<impl at [^:]+:(\d+):\d+: \d+:\d+>::(\w+)$", name)
+        if m and int(m.group(1)) in owner:
+            table["%s::%s" % (owner[int(m.group(1))], m.group(2))] = f
+
+    def resolver(callee):
+        c = re.sub(r"^fragmentation::", "", callee)
+        return table.get(c)
+    return fns, consts, table, resolver
+
+
+# ------------------------------------------------------------------------------------------------ scripts and the reference model
+def scripts_for(tier):
+    out = []
+    nmax = 2 if tier == "quick" else 3
+    for n in range(1, nmax + 1):
+        k = n + KMAX[tier]
+        for bits in range(1 << k):
+            calls = [("S" if (bits >> i) & 1 else "A", "A") for i in range(k)]
+            if not any(c == "S" for c, _ in calls):
+                continue    # without a header nothing can complete; covered by the scripts whose header comes last
+            out.append(("n%d_%s" % (n, "".join(c for c, _ in calls)), {"A": n}, calls))
+    two = [[("S", "A"), ("S", "B"), ("A", "A"), ("A", "B")], [("A", "A"), ("A", "B"), ("S", "A"), ("S", "B")],
+           [("S", "A"), ("A", "B"), ("A", "A"), ("S", "B")], [("A", "B"), ("S", "A"), ("S", "B"), ("A", "A")]]
+    for i, calls in enumerate(two):
+        out.append(("two_seq_%d" % i, {"A": 2, "B": 2}, calls))
+        if tier == "thorough":
+            out.append(("two_seq_%d_n21" % i, {"A": 2, "B": 1}, calls))
+    # headers without atom-cache data (None)
+    out.append(("n2_SA_nocache", {"A": 2}, [("S", "A"), ("A", "A")]))
+    out.append(("n1_S_nocache", {"A": 1}, [("S", "A")]))
+    if tier == "thorough":
+        # every interleaving of 4 calls over two 2-fragment sequences (first call on A, both sequences used)
+        import itertools
+        alpha = [("S", "A"), ("A", "A"), ("S", "B"), ("A", "B")]
+        for rest in itertools.product(alpha, repeat=3):
+            for first in (("S", "A"), ("A", "A")):
+                calls = [first] + list(rest)
+                if not any(x == "B" for _c, x in calls) or calls in two:
+                    continue
+                if not any(c == "S" for c, _x in calls):
+                    continue
+                out.append(("two_all_" + "".join("%s%s" % (c, x.lower()) for c, x in calls), {"A": 2, "B": 2}, calls))
+    return out
+
+
+def OR(xs):
+    xs = [x for x in xs if x != "false"]
+    if any(x == "true" for x in xs):
+        return "true"
+    return "false" if not xs else (xs[0] if len(xs) == 1 else "(or %s)" % " ".join(xs))
+
+
+def AND(xs):
+    xs = [x for x in xs if x != "true"]
+    if any(x == "false" for x in xs):
+        return "false"
+    return "true" if not xs else (xs[0] if len(xs) == 1 else "(and %s)" % " ".join(xs))
+
+
+def bv64(k):
+    return "(_ bv%d 64)" % k
+
+
+class Spec:
+    """reference model over the script's symbolic inputs (path independent)"""
+
+    def __init__(self, counts, calls, cache=True):
+        self.counts, self.calls = counts, calls
+        self.entries = {x: [] for x in counts}       # per sequence: [k, f_expr, p_expr, valid_expr]
+        self.flip, self.expected, self.ascending, self.assume = [], [], [], []
+        for k, (kind, x) in enumerate(calls):
+            n = counts[x]
+            f = bv64(n) if kind == "S" else "in_f%d" % k
+            p = "in_h%s" % x if kind == "S" else "in_p%d" % k
+            if kind == "A":
+                # a duplicate (same live message, same id) carries the same bytes; an id-N continuation duplicates the header
+                for (j, fj, pj, vj, _kd) in self.entries[x]:
+                    self.assume.append("(=> (and %s (= %s %s)) (= %s %s))" % (vj, fj, f, pj, p))
+                self.assume.append("(=> (= %s %s) (= %s in_h%s))" % (f, bv64(n), p, x))
+            ent = self.entries[x] + [[k, f, p, "true", kind]]
+            held = [OR([AND([v, "(= %s %s)" % (fj, bv64(i))]) for (_j, fj, _p, v, _kd) in ent]) for i in range(1, n + 1)]
+            hdr = OR([v for (_j, _f, _p, v, kd) in ent if kd == "S"])
+            flip = AND([hdr] + held)
+            self.flip.append(flip)
+
+            def pay(i):
+                e = bv64(0)
+                for (_j, fj, pj, v, _kd) in reversed(ent):
+                    e = "(ite %s %s %s)" % (AND([v, "(= %s %s)" % (fj, bv64(i))]), pj, e)
+                return e
+            pre = ["in_c%s" % x] if cache else []
+            self.expected.append(pre + [pay(i) for i in range(n, 0, -1)])
+            self.ascending.append(pre + [pay(i) for i in range(1, n + 1)])
+            nf = "(not %s)" % flip if flip not in ("true", "false") else ("false" if flip == "true" else "true")
+            self.entries[x] = [[j, fj, pj, AND([v, nf]), kd] for (j, fj, pj, v, kd) in ent]
+        self.live = {x: OR([v for (_j, _f, _p, v, _kd) in self.entries[x]]) for x in counts}
+
+    def inputs(self):
+        d = {}
+        for x in self.counts:
+            d["in_s%s" % x] = "(_ BitVec 64)"
+            d["in_h%s" % x] = "(_ BitVec 64)"
+            d["in_c%s" % x] = "(_ BitVec 64)"
+            d["in_lh%s" % x] = "(_ BitVec 64)"
+            d["in_lc%s" % x] = "(_ BitVec 64)"
+        for k, (kind, x) in enumerate(self.calls):
+            if kind == "A":
+                d["in_f%d" % k] = "(_ BitVec 64)"
+                d["in_p%d" % k] = "(_ BitVec 64)"
+                d["in_l%d" % k] = "(_ BitVec 64)"
+        return d
+
+
+def concrete_reference(counts, calls, vals, cache=True):
+    """the same reference model on concrete values: list of expected results (None | list of tokens) and the live-sequence count"""
+    st = {x: {"hdr": False, "held": {}, "buf": {}, "live": False} for x in counts}
+    out = []
+    for k, (kind, x) in enumerate(calls):
+        n = counts[x]
+        s = st[x]
+        s["live"] = True
+        if kind == "S":
+            s["hdr"] = True
+            f, p = n, vals["in_h%s" % x]
+        else:
+            f, p = vals["in_f%d" % k], vals["in_p%d" % k]
+        s["buf"].setdefault(f, p)
+        if s["hdr"] and all(i in s["buf"] for i in range(1, n + 1)):
+            out.append(([vals["in_c%s" % x]] if cache else []) + [s["buf"][i] for i in range(n, 0, -1)])
+            st[x] = {"hdr": False, "held": {}, "buf": {}, "live": False}
+        else:
+            out.append(None)
+    return out, sum(1 for x in counts if st[x]["live"])
+
+
+# ------------------------------------------------------------------------------------------------ one script
+def bytes_val(tok, ln):
+    return symex.Val("bytes", chunks=[(tok, ln)])
+
+
+def run_script(name, counts, calls, code, tier):
+    fns, consts, table, resolver = code
+    t0 = time.time()
+    use_cache = not name.endswith("_nocache")
+    spec = Spec(counts, calls, cache=use_cache)
+    sol = heapex.Solver(timeout_s=120)
+    failures, notes = [], []
+    npaths = 0
+    try:
+        sol.declare("hx_probe", "(_ BitVec 64)")
+        for n_, s_ in spec.inputs().items():
+            sol.declare(n_, s_)
+        xs = sorted(counts)
+        if len(xs) == 2:
+            sol.assume("(not (= in_s%s in_s%s))" % (xs[0], xs[1]))
+        for a in spec.assume:
+            sol.assume(a)
+        for n_ in spec.inputs():
+            if n_.startswith("in_l"):
+                sol.assume("(bvult %s (_ bv1099511627776 64))" % n_)
+        r, _ = sol.check([])
+        if r != "sat":
+            return _rec("c09_" + name, "VACUOUS", time.time() - t0, notes=["the harness assumptions are %s" % r])
+        it = heapex.Interp(fns, consts, sol, resolver, max_alloc=4)
+        work = [[]]
+        seen_fail = set()
+        completed_paths = 0
+        while work:
+            prefix = work.pop()
+            it.reset(prefix)
+            npaths += 1
+            if npaths > 6000:
+                raise symex.Unsupported("more than 6000 paths")
+            asm = [symex.Val("struct", name="FragmentAssembler", fields=[symex.Val("map", entries=[]), heapex.OPAQUE("duration")])]
+            aref = lambda: symex.Val("ref", lst=asm, idx=0)
+            fail = None
+            soft = []
+            try:
+                for k, (kind, x) in enumerate(calls):
+                    seq = symex.Val("struct", name="SequenceId", fields=[symex.BV(64, "in_s%s" % x)])
+                    if kind == "S":
+                        args = [aref(), seq, symex.BV(64, bv64(counts[x])), heapex.SOME(bytes_val("in_c%s" % x, "in_lc%s" % x)) if use_cache else heapex.NONE(),
+                                bytes_val("in_h%s" % x, "in_lh%s" % x)]
+                        ret = it.call_fn(table["FragmentAssembler::start_fragment"], args)
+                    else:
+                        args = [aref(), seq, symex.BV(64, "in_f%d" % k), bytes_val("in_p%d" % k, "in_l%d" % k)]
+                        ret = it.call_fn(table["FragmentAssembler::add_fragment"], args)
+                    if ret.kind != "enum" or ret.ename != "Option":
+                        raise symex.Unsupported("call %d returned %r" % (k, ret))
+                    flip = spec.flip[k]
+                    if ret.idx == 1:
+                        r, m = sol.check(it.pc + ["(not %s)" % flip], want_model=sorted(spec.inputs()))
+                        if r == "sat":
+                            fail = ("L:message_returned_when_the_sequence_is_not_complete", k, m)
+                            break
+                        if r != "unsat":
+                            raise symex.Unsupported("solver %s" % r)
+                        res = ret.fields[0]
+                        if res.kind != "bytes":
+                            raise symex.Unsupported("result is %s" % res.kind)
+                        got = [t for (t, _l) in res.chunks]
+                        exp, asc = spec.expected[k], spec.ascending[k]
+                        if len(got) != len(exp):
+                            r, m = sol.check(it.pc, want_model=sorted(spec.inputs()))
+                            fail = ("L:reassembled_chunk_count_differs", k, m)
+                            break
+                        diff = OR(["(not (= %s %s))" % (g, e) for g, e in zip(got, exp)])
+                        r, m = sol.check(it.pc + [diff], want_model=sorted(spec.inputs()))
+                        if r == "sat":
+                            toks = sorted(n_ for n_ in spec.inputs() if re.match(r"in_[hcp]", n_))
+                            if len(toks) > 1:    # prefer a model with pairwise different payloads (readable replay); not required
+                                r3, m3 = sol.check(it.pc + [diff, "(distinct %s)" % " ".join(toks)], want_model=sorted(spec.inputs()))
+                                if r3 == "sat":
+                                    m = m3
+                            r2, _ = sol.check(it.pc + [OR(["(not (= %s %s))" % (g, e) for g, e in zip(got, asc)])])
+                            if r2 == "unsat":
+                                # the delivered chunks are exactly the ascending-id concatenation: recorded, and the path goes on so that
+                                # everything after this completion is still checked
+                                soft.append(("L:reassembled_in_ascending_fragment_id_order_instead_of_protocol_order", k, m))
+                                continue
+                            fail = ("L:reassembled_bytes_differ_from_the_message", k, m)
+                            break
+                        if r != "unsat":
+                            raise symex.Unsupported("solver %s" % r)
+                    else:
+                        r, m = sol.check(it.pc + [flip], want_model=sorted(spec.inputs()))
+                        if r == "sat":
+                            fail = ("L:nothing_returned_when_the_last_missing_fragment_arrives", k, m)
+                            break
+                        if r != "unsat":
+                            raise symex.Unsupported("solver %s" % r)
+                if fail is None:
+                    cnt = it.call_fn(table["FragmentAssembler::pending_count"], [aref()])
+                    c = heapex.lit_int(cnt)
+                    live = "(bvadd %s)" % " ".join(["(_ bv0 8)"] + ["(ite %s (_ bv1 8) (_ bv0 8))" % spec.live[x] for x in sorted(counts)])
+                    r, m = sol.check(it.pc + ["(bvugt (_ bv%d 8) %s)" % (c, live)], want_model=sorted(spec.inputs()))
+                    if r == "sat":
+                        fail = ("L:pending_count_exceeds_the_live_sequences", len(calls), m)
+                    elif r != "unsat":
+                        raise symex.Unsupported("solver %s" % r)
+                    completed_paths += 1
+            except heapex.Panic as e:
+                r, m = sol.check(it.pc, want_model=sorted(spec.inputs()))
+                fail = ("L:panics:" + re.sub(r"[^A-Za-z0-9]+", "_", str(e))[:60], -1, m if r == "sat" else None)
+            except heapex.Infeasible:
+                pass
+            work.extend(it.pending)
+            for fl in soft + ([fail] if fail else []):
+                if fl[0] in seen_fail:
+                    continue
+                seen_fail.add(fl[0])
+                lab, k, m = fl
+                vals = {n_: (m or {}).get(n_, 0) for n_ in spec.inputs()}
+                ok, rr = replay(counts, calls, vals, lab, use_cache)
+                failures.append({"kind": "assert", "label": lab, "prop": "c09_" + name, "function": "FragmentAssembler",
+                                 "desc": "script %s counts=%s, at call %d, inputs %s" % (" ".join("%s:%s" % c for c in calls), counts, k,
+                                                                                      {a: b for a, b in vals.items() if not a.startswith("in_l")}),
+                                 "values": [vals[n_] for n_ in sorted(vals)], "replayed": ok, "replay_result": rr,
+                                 "e2": {"counts": counts, "calls": calls, "vals": vals, "label": lab, "cache": use_cache}})
+        if completed_paths == 0 and not failures:
+            return _rec("c09_" + name, "VACUOUS", time.time() - t0, notes=["no path ran to the end of the script"])
+        sample = {"script": " ".join("%s:%s" % c for c in calls), "fragments": counts, "paths": npaths, "paths_to_the_end": completed_paths,
+                  "solver_queries": sol.queries, "solver_s": round(sol.seconds, 2), "mir_functions_executed": sorted(x.split("::")[-1] for x in it.calls_seen),
+                  "assumptions_used": sorted(it.assumptions_used)}
+        return _rec("c09_" + name, "FAIL" if failures else "PASS", time.time() - t0, failures=failures, sample=sample, solver_s=sol.seconds,
+                    queries=sol.queries, paths=npaths)
+    except symex.Unsupported as e:
+        return _rec("c09_" + name, "INCONCLUSIVE", time.time() - t0, notes=["cannot encode: %s" % e], queries=sol.queries, paths=npaths)
+    finally:
+        sol.close()
+
+
+# ------------------------------------------------------------------------------------------------ native replay
+def replay(counts, calls, vals, label, cache=True):
+    """runs the script on the real FragmentAssembler and compares with the concrete reference model"""
+    from . import c16_replay
+    b = c16_replay._binary()
+    if b is None:
+        return False, {"dev": (-1, "replay build failed")}
+    args = ["frag"]
+    for k, (kind, x) in enumerate(calls):
+        if kind == "S":
+            args.append("S:%d:%d:%s:%016x" % (vals["in_s%s" % x], counts[x], ("%016x" % vals["in_c%s" % x]) if cache else "-", vals["in_h%s" % x]))
+        else:
+            args.append("A:%d:%d:%016x" % (vals["in_s%s" % x], vals["in_f%d" % k], vals["in_p%d" % k]))
+    try:
+        p = subprocess.run([b] + args, stdout=subprocess.PIPE, stderr=subprocess.STDOUT, text=True, timeout=60)
+    except subprocess.TimeoutExpired:
+        return False, {"dev": (-2, "timeout")}
+    if p.returncode not in (0,):
+        return (p.returncode == 101 and label.startswith("L:panics")), {"dev": (p.returncode, p.stdout[-400:])}
+    got, pend = [], None
+    for ln in p.stdout.splitlines():
+        m = re.match(r"^call \d+: (None|[0-9a-f]*)$", ln)
+        if m:
+            got.append(None if m.group(1) == "None" else [int(m.group(1)[i:i + 16], 16) for i in range(0, len(m.group(1)), 16)])
+        m = re.match(r"^pending_count: (\d+)$", ln)
+        if m:
+            pend = int(m.group(1))
+    exp, live = concrete_reference(counts, calls, vals, cache)
+    differs = got != exp or (pend is not None and pend > live)
+    return differs, {"dev": (101 if differs else 0, "native %s pending=%s; reference %s live=%s" % (got, pend, exp, live))}
+
+
+def replay_case(case):
+    e = case.get("e2") or {}
+    if not e:
+        return None
+    calls = [tuple(c) for c in e["calls"]]
+    return replay(e["counts"], calls, e["vals"], e["label"], e.get("cache", True))
+
+
+def extra_checks(tier, seed):
+    out = []
+    t0 = time.time()
+    try:
+        code = load()
+    except (mir.MirError, OSError) as e:
+        return [_rec("c09_encode", "INCONCLUSIVE", time.time() - t0, notes=["cannot dump/parse MIR: %s" % e])]
+    need = ["FragmentAssembler::start_fragment", "FragmentAssembler::add_fragment", "FragmentAssembler::pending_count"]
+    miss = [n for n in need if n not in code[2]]
+    if miss:
+        return [_rec("c09_encode", "INCONCLUSIVE", time.time() - t0, notes=["functions not found in the MIR dump: %s" % miss])]
+    only = os.environ.get("VERIF_C09_ONLY")
+    for name, counts, calls in scripts_for(tier):
+        if only and not re.search(only, name):
+            continue
+        r = run_script(name, counts, calls, code, tier)
+        out.append(r)
+        log("[C09] %-44s %-12s %6.1fs paths=%s queries=%s %s" % (r["harness"], r["status"], r["wall_s"], r.get("steps"), r.get("vccs"),
+                                                              "; ".join(r.get("notes") or []) or ", ".join(x["label"] for x in r.get("failures", []))))
+    return out
